@@ -1354,3 +1354,752 @@ Proof.
   - destruct H as [_ [_ [Ht _]]]. split; intros _; exact Ht.
   - destruct H as [Hp [_ [_ Hf]]]. split; [exact Hf|]. intro X. rewrite Hp in X. discriminate.
 Qed.
+
+(* ------------------------------------------------------------------ *)
+(* 6. Happens-before (C16)                                             *)
+
+Lemma edge_lt : forall tr i j, edge tr i j = true -> i < j.
+Proof.
+  intros tr i j H. unfold edge in H. apply andb_true_iff in H. destruct H as [H _].
+  apply Nat.ltb_lt. exact H.
+Qed.
+
+Lemma hb_lt : forall tr i j, hb tr i j -> i < j.
+Proof.
+  intros tr i j H. induction H as [i j H|i k j _ IH1 _ IH2].
+  - eapply edge_lt; eauto.
+  - lia.
+Qed.
+
+(* the decision procedure finds every happens-before pair *)
+Lemma hbb_fuel_complete : forall tr i j, hb tr i j ->
+  forall d, j - i <= d -> hbb_fuel d tr i j = true.
+Proof.
+  intros tr i j H. apply clos_trans_tn1 in H.
+  induction H as [j H|m j Hmj Him IH]; intros d Hd.
+  - pose proof (edge_lt _ _ _ H). destruct d as [|d]; [lia|]. simpl. rewrite H. reflexivity.
+  - pose proof (edge_lt _ _ _ Hmj) as Hlt.
+    assert (Him' : i < m) by (apply (hb_lt tr); apply clos_tn1_trans; exact Him).
+    destruct d as [|d]; [lia|]. simpl. apply orb_true_iff. right.
+    apply existsb_exists. exists m. split.
+    + apply in_seq. lia.
+    + rewrite Hmj. simpl. apply IH. lia.
+Qed.
+
+Lemma hbb_complete : forall tr i j, hb tr i j -> hbb tr i j = true.
+Proof. intros tr i j H. apply hbb_fuel_complete; [exact H|lia]. Qed.
+
+Lemma hbb_fuel_sound : forall d tr i j, hbb_fuel d tr i j = true -> hb tr i j.
+Proof.
+  induction d as [|d IH]; intros tr i j H; simpl in H; [discriminate|].
+  apply orb_true_iff in H. destruct H as [H|H].
+  - apply t_step. exact H.
+  - apply existsb_exists in H. destruct H as [m [_ Hm]].
+    apply andb_true_iff in Hm. destruct Hm as [H1 H2].
+    eapply t_trans; [apply IH; exact H2|apply t_step; exact H1].
+Qed.
+
+Lemma hbb_iff : forall tr i j, hbb tr i j = true <-> hb tr i j.
+Proof. intros. split; [apply hbb_fuel_sound|apply hbb_complete]. Qed.
+
+Lemma races_complete : forall tr, races tr = [] -> race_free tr.
+Proof.
+  intros tr H i j a b Hij Ha Hb Hc.
+  destruct (hbb tr i j) eqn:E; [apply hbb_iff; exact E|]. exfalso.
+  assert (Hin : In (i, j) (races tr)).
+  { unfold races. apply in_flat_map. exists j. split.
+    - apply in_seq. pose proof (nth_error_Some tr j) as X. rewrite Hb in X.
+      assert (j < length tr) by (apply X; discriminate). lia.
+    - apply in_flat_map. exists i. split; [apply in_seq; lia|].
+      rewrite Ha, Hb, Hc, E. simpl. left. reflexivity. }
+  rewrite H in Hin. destruct Hin.
+Qed.
+
+Lemma races_sound : forall tr i j, In (i, j) (races tr) -> ~ race_free tr.
+Proof.
+  intros tr i j Hin Hrf. unfold races in Hin.
+  apply in_flat_map in Hin. destruct Hin as [j' [Hj' Hin]].
+  apply in_flat_map in Hin. destruct Hin as [i' [Hi' Hin]].
+  apply in_seq in Hi'.
+  destruct (nth_error tr i') as [a|] eqn:Ea; [|destruct Hin].
+  destruct (nth_error tr j') as [b|] eqn:Eb; [|destruct Hin].
+  destruct (conflict a b) eqn:Ec; simpl in Hin; [|destruct Hin].
+  destruct (hbb tr i' j') eqn:Eh; simpl in Hin; [destruct Hin|].
+  destruct Hin as [Heq|[]]. injection Heq as <- <-.
+  assert (Hhb : hb tr i' j') by (eapply Hrf; eauto; lia).
+  apply hbb_complete in Hhb. rewrite Hhb in Eh. discriminate.
+Qed.
+
+(* the program before the fix has a racy execution *)
+Lemma hb_unsat_subset_old_refuted :
+  exists lines st brk sched,
+    let tr := trace (run sched (us_old_sys lines st brk)) in
+    ~ race_free tr /\
+    exists i j a b, i < j /\ nth_error tr i = Some a /\ nth_error tr j = Some b /\
+                    conflict a b = true /\ ~ hb tr i j /\ ~ hb tr j i.
+Proof.
+  exists [[0%Z]], [2%Z], is_empty_clause, [0; 0; 1].
+  split.
+  - apply (races_sound _ 2 3). vm_compute. left. reflexivity.
+  - exists 2, 3, (ERead 0 0), (EWrite 1 0).
+    split; [lia|]. split; [reflexivity|]. split; [reflexivity|]. split; [reflexivity|].
+    split.
+    + intro H. apply hbb_complete in H. vm_compute in H. discriminate.
+    + intro H. apply hb_lt in H. lia.
+Qed.
+
+(* ... and an execution in which the solving goroutine stays blocked for ever *)
+Lemma unsat_subset_old_leak :
+  exists lines st brk sched,
+    let s := run sched (us_old_sys lines st brk) in
+    quiescentb s = true /\ all_finished s = false /\ finished (getthread s 0) = true.
+Proof.
+  exists [[0%Z]; [4%Z]], [2%Z], is_empty_clause, [0; 0]. vm_compute. auto.
+Qed.
+
+Lemma quiescentb_sound : forall s, quiescentb s = true -> quiescent s.
+Proof.
+  intros s H t. unfold quiescentb in H. rewrite forallb_forall in H.
+  destruct (Nat.lt_ge_cases t (length (threads s))) as [Hlt|Hge].
+  - specialize (H t ltac:(apply in_seq; lia)). unfold enabled in H.
+    destruct (step s t); [discriminate|reflexivity].
+  - apply step_out_of_range. exact Hge.
+Qed.
+
+(* ---- the fixed UnsatSubset: every execution is race free ---- *)
+
+Definition eW := EWrite 1 0.     (* the solving goroutine writes its status     *)
+Definition eS := ESend 1 1 0.    (* ... and sends it on statusCh                *)
+Definition eRv := ERecv 0 1 0.   (* the caller receives it                      *)
+Definition eRd := ERead 0 0.     (* the caller reads the status cell (ghost)    *)
+
+Lemma nth_error_snoc : forall A (l : list A) e i x,
+  nth_error (l ++ [e]) i = Some x ->
+  (i < length l /\ nth_error l i = Some x) \/ (i = length l /\ x = e).
+Proof.
+  intros A l e i x H. destruct (Nat.lt_ge_cases i (length l)) as [Hlt|Hge].
+  - left. rewrite nth_error_app1 in H by exact Hlt. auto.
+  - right. rewrite nth_error_app2 in H by exact Hge.
+    destruct (i - length l) as [|k] eqn:E; simpl in H.
+    + injection H as <-. split; [lia|reflexivity].
+    + destruct k; discriminate.
+Qed.
+
+Lemma nth_error_snoc_l : forall A (l : list A) e i x,
+  nth_error l i = Some x -> nth_error (l ++ [e]) i = Some x.
+Proof.
+  intros A l e i x H. rewrite nth_error_app1; [exact H|].
+  apply nth_error_Some. rewrite H. discriminate.
+Qed.
+
+Lemma nth_error_snoc_last : forall A (l : list A) e, nth_error (l ++ [e]) (length l) = Some e.
+Proof. intros. rewrite nth_error_app2 by lia. rewrite Nat.sub_diag. reflexivity. Qed.
+
+(* invariant of the trace; the flags say which of the key events have occurred *)
+Record TI (sS sRv sRd : bool) (tr : list ev) : Prop := {
+  ti_acc : forall i e, nth_error tr i = Some e -> cell_access e <> None -> e = eW \/ e = eRd;
+  ti_ws : forall a b, nth_error tr a = Some eW -> nth_error tr b = Some eS -> a < b;
+  ti_rd : forall j, nth_error tr j = Some eRd -> exists c, c < j /\ nth_error tr c = Some eRv;
+  ti_rv : forall c, nth_error tr c = Some eRv -> exists b, b < c /\ nth_error tr b = Some eS;
+  ti_wr : forall a j, nth_error tr a = Some eW -> nth_error tr j = Some eRd -> a < j;
+  ti_noS : sS = false -> ~ In eS tr;
+  ti_S : sS = true -> In eS tr;
+  ti_noRd : sRd = false -> ~ In eRd tr;
+  ti_Rv : sRv = true -> In eRv tr }.
+
+Lemma TI_nil : TI false false false [].
+Proof.
+  constructor; try (intros; discriminate); try (intros _ []).
+  - intros i e H. destruct i; discriminate.
+  - intros a b H. destruct a; discriminate.
+  - intros j H. destruct j; discriminate.
+  - intros c H. destruct c; discriminate.
+  - intros a j H. destruct a; discriminate.
+Qed.
+
+Lemma in_snoc : forall A (x e : A) l, In x (l ++ [e]) <-> In x l \/ x = e.
+Proof.
+  intros. rewrite in_app_iff. simpl. split; intros [H|H]; auto.
+  - destruct H as [H|[]]; auto.
+Qed.
+
+(* an event that is neither a cell access nor one of the key events *)
+Lemma TI_other : forall sS sRv sRd tr e, TI sS sRv sRd tr ->
+  cell_access e = None -> e <> eS -> e <> eRv -> TI sS sRv sRd (tr ++ [e]).
+Proof.
+  intros sS sRv sRd tr e T Hc HS HRv.
+  assert (HW : e <> eW) by (intro X; rewrite X in Hc; discriminate).
+  assert (HRd : e <> eRd) by (intro X; rewrite X in Hc; discriminate).
+  constructor.
+  - intros i x H Hx. apply nth_error_snoc in H. destruct H as [[_ H]|[_ ->]].
+    + eapply ti_acc; eauto.
+    + contradiction.
+  - intros a b Ha Hb. apply nth_error_snoc in Ha. apply nth_error_snoc in Hb.
+    destruct Ha as [[_ Ha]|[_ Ha]]; [|symmetry in Ha; contradiction].
+    destruct Hb as [[_ Hb]|[_ Hb]]; [|symmetry in Hb; contradiction].
+    eapply ti_ws; eauto.
+  - intros j Hj. apply nth_error_snoc in Hj.
+    destruct Hj as [[_ Hj]|[_ Hj]]; [|symmetry in Hj; contradiction].
+    destruct (ti_rd _ _ _ _ T j Hj) as [c [Hc1 Hc2]]. exists c. split; [exact Hc1|].
+    apply nth_error_snoc_l. exact Hc2.
+  - intros c Hc'. apply nth_error_snoc in Hc'.
+    destruct Hc' as [[_ Hc']|[_ Hc']]; [|symmetry in Hc'; contradiction].
+    destruct (ti_rv _ _ _ _ T c Hc') as [b [Hb1 Hb2]]. exists b. split; [exact Hb1|].
+    apply nth_error_snoc_l. exact Hb2.
+  - intros a j Ha Hj. apply nth_error_snoc in Ha. apply nth_error_snoc in Hj.
+    destruct Ha as [[_ Ha]|[_ Ha]]; [|symmetry in Ha; contradiction].
+    destruct Hj as [[_ Hj]|[_ Hj]]; [|symmetry in Hj; contradiction].
+    eapply ti_wr; eauto.
+  - intros H X. apply in_snoc in X. destruct X as [X|X]; [eapply ti_noS; eauto|auto].
+  - intros H. apply in_snoc. left. eapply ti_S; eauto.
+  - intros H X. apply in_snoc in X. destruct X as [X|X]; [eapply ti_noRd; eauto|auto].
+  - intros H. apply in_snoc. left. eapply ti_Rv; eauto.
+Qed.
+
+Lemma In_nth_error_lt : forall A (l : list A) x, In x l -> exists i, i < length l /\ nth_error l i = Some x.
+Proof.
+  intros A l x H. apply In_nth_error in H. destruct H as [i Hi]. exists i. split; [|exact Hi].
+  apply nth_error_Some. rewrite Hi. discriminate.
+Qed.
+
+Ltac old_or_new H :=
+  apply nth_error_snoc in H; destruct H as [[? H]|[? H]].
+
+(* the write: nothing was sent on statusCh and nothing was read yet *)
+Lemma TI_write : forall tr, TI false false false tr -> TI false false false (tr ++ [eW]).
+Proof.
+  intros tr T. constructor.
+  - intros i x H Hx. old_or_new H; [eapply ti_acc; eauto|left; exact H].
+  - intros a b Ha Hb. exfalso. old_or_new Hb; [|discriminate].
+    eapply (ti_noS _ _ _ _ T eq_refl). eapply nth_error_In; eauto.
+  - intros j Hj. exfalso. old_or_new Hj; [|discriminate].
+    eapply (ti_noRd _ _ _ _ T eq_refl). eapply nth_error_In; eauto.
+  - intros c Hc. old_or_new Hc; [|discriminate].
+    destruct (ti_rv _ _ _ _ T c Hc) as [b [Hb1 Hb2]]. exists b. split; [exact Hb1|].
+    apply nth_error_snoc_l. exact Hb2.
+  - intros a j Ha Hj. exfalso. old_or_new Hj; [|discriminate].
+    eapply (ti_noRd _ _ _ _ T eq_refl). eapply nth_error_In; eauto.
+  - intros _ X. apply in_snoc in X. destruct X as [X|X]; [|discriminate].
+    eapply ti_noS; eauto.
+  - intros H; discriminate.
+  - intros _ X. apply in_snoc in X. destruct X as [X|X]; [|discriminate].
+    eapply ti_noRd; eauto.
+  - intros H; discriminate.
+Qed.
+
+(* the send of the status *)
+Lemma TI_send : forall tr, TI false false false tr -> TI true false false (tr ++ [eS]).
+Proof.
+  intros tr T. constructor.
+  - intros i x H Hx. old_or_new H; [eapply ti_acc; eauto|]. subst x. simpl in Hx. contradiction.
+  - intros a b Ha Hb. old_or_new Ha; [|discriminate].
+    old_or_new Hb; [exfalso; eapply (ti_noS _ _ _ _ T eq_refl); eapply nth_error_In; eauto|lia].
+  - intros j Hj. exfalso. old_or_new Hj; [|discriminate].
+    eapply (ti_noRd _ _ _ _ T eq_refl). eapply nth_error_In; eauto.
+  - intros c Hc. old_or_new Hc; [|discriminate].
+    destruct (ti_rv _ _ _ _ T c Hc) as [b [Hb1 Hb2]]. exfalso.
+    eapply (ti_noS _ _ _ _ T eq_refl). eapply nth_error_In; eauto.
+  - intros a j Ha Hj. exfalso. old_or_new Hj; [|discriminate].
+    eapply (ti_noRd _ _ _ _ T eq_refl). eapply nth_error_In; eauto.
+  - intros H; discriminate.
+  - intros _. apply in_snoc. right. reflexivity.
+  - intros _ X. apply in_snoc in X. destruct X as [X|X]; [|discriminate].
+    eapply ti_noRd; eauto.
+  - intros H; discriminate.
+Qed.
+
+(* the receive of the status *)
+Lemma TI_recv : forall tr, TI true false false tr -> TI true true false (tr ++ [eRv]).
+Proof.
+  intros tr T. constructor.
+  - intros i x H Hx. old_or_new H; [eapply ti_acc; eauto|]. subst x. simpl in Hx. contradiction.
+  - intros a b Ha Hb. old_or_new Ha; [|discriminate]. old_or_new Hb; [|discriminate].
+    eapply ti_ws; eauto.
+  - intros j Hj. exfalso. old_or_new Hj; [|discriminate].
+    eapply (ti_noRd _ _ _ _ T eq_refl). eapply nth_error_In; eauto.
+  - intros c Hc. old_or_new Hc.
+    + destruct (ti_rv _ _ _ _ T c Hc) as [b [Hb1 Hb2]]. exists b. split; [exact Hb1|].
+      apply nth_error_snoc_l. exact Hb2.
+    + destruct (In_nth_error_lt _ _ _ (ti_S _ _ _ _ T eq_refl)) as [b [Hb1 Hb2]].
+      exists b. split; [lia|]. apply nth_error_snoc_l. exact Hb2.
+  - intros a j Ha Hj. exfalso. old_or_new Hj; [|discriminate].
+    eapply (ti_noRd _ _ _ _ T eq_refl). eapply nth_error_In; eauto.
+  - intros H; discriminate.
+  - intros _. apply in_snoc. left. eapply ti_S; eauto.
+  - intros _ X. apply in_snoc in X. destruct X as [X|X]; [|discriminate].
+    eapply ti_noRd; eauto.
+  - intros _. apply in_snoc. right. reflexivity.
+Qed.
+
+(* the read *)
+Lemma TI_read : forall tr, TI true true false tr -> TI true true true (tr ++ [eRd]).
+Proof.
+  intros tr T. constructor.
+  - intros i x H Hx. old_or_new H; [eapply ti_acc; eauto|right; exact H].
+  - intros a b Ha Hb. old_or_new Ha; [|discriminate]. old_or_new Hb; [|discriminate].
+    eapply ti_ws; eauto.
+  - intros j Hj. old_or_new Hj.
+    + exfalso. eapply (ti_noRd _ _ _ _ T eq_refl). eapply nth_error_In; eauto.
+    + destruct (In_nth_error_lt _ _ _ (ti_Rv _ _ _ _ T eq_refl)) as [c [Hc1 Hc2]].
+      exists c. split; [lia|]. apply nth_error_snoc_l. exact Hc2.
+  - intros c Hc. old_or_new Hc; [|discriminate].
+    destruct (ti_rv _ _ _ _ T c Hc) as [b [Hb1 Hb2]]. exists b. split; [exact Hb1|].
+    apply nth_error_snoc_l. exact Hb2.
+  - intros a j Ha Hj. old_or_new Ha; [|discriminate].
+    old_or_new Hj; [exfalso; eapply (ti_noRd _ _ _ _ T eq_refl); eapply nth_error_In; eauto|lia].
+  - intros H; discriminate.
+  - intros _. apply in_snoc. left. eapply ti_S; eauto.
+  - intros H; discriminate.
+  - intros _. apply in_snoc. left. eapply ti_Rv; eauto.
+Qed.
+
+Lemma TI_race_free : forall sS sRv sRd tr, TI sS sRv sRd tr -> race_free tr.
+Proof.
+  intros sS sRv sRd tr T i j a b Hij Ha Hb Hc.
+  assert (Haa : cell_access a <> None).
+  { unfold conflict in Hc. destruct (cell_access a); [discriminate|discriminate]. }
+  assert (Hbb : cell_access b <> None).
+  { unfold conflict in Hc. destruct (cell_access a) as [[[t1 c1] w1]|]; [|discriminate].
+    destruct (cell_access b); [discriminate|discriminate]. }
+  destruct (ti_acc _ _ _ _ T i a Ha Haa) as [-> | ->];
+    destruct (ti_acc _ _ _ _ T j b Hb Hbb) as [-> | ->]; try (vm_compute in Hc; discriminate).
+  - (* write at i, read at j: W -> S -> Rv -> Rd *)
+    destruct (ti_rd _ _ _ _ T j Hb) as [c [Hcj Hc']].
+    destruct (ti_rv _ _ _ _ T c Hc') as [s [Hsc Hs]].
+    pose proof (ti_ws _ _ _ _ T i s Ha Hs) as His.
+    assert (E1 : edge tr i s = true).
+    { unfold edge. rewrite Ha, Hs. apply andb_true_iff. split; [apply Nat.ltb_lt; exact His|reflexivity]. }
+    assert (E2 : edge tr s c = true).
+    { unfold edge. rewrite Hs, Hc'. apply andb_true_iff. split; [apply Nat.ltb_lt; exact Hsc|reflexivity]. }
+    assert (E3 : edge tr c j = true).
+    { unfold edge. rewrite Hc', Hb. apply andb_true_iff. split; [apply Nat.ltb_lt; exact Hcj|reflexivity]. }
+    eapply t_trans; [apply t_step; exact E1|].
+    eapply t_trans; [apply t_step; exact E2|apply t_step; exact E3].
+  - (* read before write: impossible *)
+    pose proof (ti_wr _ _ _ _ T j i Hb Ha). lia.
+Qed.
+
+Lemma TI_other2 : forall sS sRv sRd tr e1 e2, TI sS sRv sRd tr ->
+  cell_access e1 = None -> e1 <> eS -> e1 <> eRv ->
+  cell_access e2 = None -> e2 <> eS -> e2 <> eRv ->
+  TI sS sRv sRd (tr ++ [e1; e2]).
+Proof.
+  intros. replace (tr ++ [e1; e2]) with ((tr ++ [e1]) ++ [e2]) by (rewrite <- app_assoc; reflexivity).
+  apply TI_other; auto. apply TI_other; auto.
+Qed.
+
+(* the states of the solving goroutine: code, status written?, status sent?,
+   certificate channel closed? *)
+Inductive sol (st : value) : list instr -> bool -> bool -> bool -> Prop :=
+| sol_send : forall rest,
+    sol st (map (Send 0) rest ++ [Write 0 st; Send 1 st; Close 0]) false false false
+| sol_w : sol st [Send 1 st; Close 0] true false false
+| sol_s : sol st [Close 0] true true false
+| sol_done : sol st [] true true true.
+
+Inductive us_inv (st : value) (brk : value -> bool) : sys -> Prop :=
+| ui_check : forall (drain : bool) sc sW sS clo n0 m0 lm tr,
+    sol st sc sW sS clo -> TI sS false false tr ->
+    us_inv st brk
+      (Sys [Thread ((if drain then [] else [Range 0 (fun _ => []) brk]) ++
+                    [collect 0; Recv 1; Read 0]) lm;
+            Thread sc []]
+           [(0, Chan 0 [] clo n0 m0);
+            (1, Chan 1 (if sS then [st] else []) false (if sS then 1 else 0) 0)]
+           (if sW then [(0, st)] else []) tr false)
+| ui_recv : forall n0 m0 lm tr, TI true false false tr ->
+    us_inv st brk
+      (Sys [Thread [Recv 1; Read 0] lm; Thread [] []]
+           [(0, Chan 0 [] true n0 m0); (1, Chan 1 [st] false 1 0)] [(0, st)] tr false)
+| ui_read : forall n0 m0 lm tr, TI true true false tr ->
+    us_inv st brk
+      (Sys [Thread [Read 0] (lm ++ [OVal st]); Thread [] []]
+           [(0, Chan 0 [] true n0 m0); (1, Chan 1 [] false 1 1)] [(0, st)] tr false)
+| ui_done : forall n0 m0 lm tr, TI true true true tr ->
+    us_inv st brk
+      (Sys [Thread [] (lm ++ [OVal st; ORead st]); Thread [] []]
+           [(0, Chan 0 [] true n0 m0); (1, Chan 1 [] false 1 1)] [(0, st)] tr false).
+
+Lemma us_inv_init : forall lines st brk, us_inv st brk (us_new_sys lines st brk).
+Proof.
+  intros lines st brk. unfold us_new_sys, start, us_main_new, us_solver_new, mkchan. simpl.
+  apply (ui_check st brk false _ false false false 0 0 [] []); [apply sol_send|apply TI_nil].
+Qed.
+
+Definition mu_us (s : sys) : nat :=
+  2 * length (code (getthread s 1)) + length (code (getthread s 0)) + length (queue (getc s 1)).
+
+Ltac mu_us_tac :=
+  unfold mu_us, getthread, getc; cbn; rewrite ?app_length, ?map_length; simpl; lia.
+
+Ltac ti_other2 T := apply TI_other2; [exact T|reflexivity|discriminate|discriminate|reflexivity|discriminate|discriminate].
+Ltac ti_other T := apply TI_other; [exact T|reflexivity|discriminate|discriminate].
+
+Lemma us_inv_step_mu : forall st brk s t s',
+  us_inv st brk s -> step s t = Some s' -> us_inv st brk s' /\ mu_us s' < mu_us s.
+Proof.
+  intros st brk s t s' Hinv Hstep.
+  destruct Hinv as [drain sc sW sS clo n0 m0 lm tr Hsol T|n0 m0 lm tr T|n0 m0 lm tr T|n0 m0 lm tr T].
+  - destruct Hsol as [rest| | |].
+    + (* the solver is sending certificate lines *)
+      destruct rest as [|v rest].
+      * destruct t as [|[|t]].
+        -- destruct drain; cbn in Hstep; discriminate.
+        -- destruct drain; cbn in Hstep; injection Hstep as <-; (split; [|mu_us_tac]).
+           ++ apply (ui_check st brk true _ true false false n0 m0 lm); [apply sol_w|apply TI_write; exact T].
+           ++ apply (ui_check st brk false _ true false false n0 m0 lm); [apply sol_w|apply TI_write; exact T].
+        -- destruct drain; cbn in Hstep; destruct t; discriminate.
+      * assert (Hsol' : sol st (map (Send 0) rest ++ [Write 0 st; Send 1 st; Close 0]) false false false)
+          by apply sol_send.
+        destruct t as [|[|t]].
+        -- destruct drain; cbn in Hstep; unfold rendezvous in Hstep; cbn in Hstep.
+           ++ injection Hstep as <-. split; [|mu_us_tac].
+              apply (ui_check st brk true _ false false false (S n0) (S m0) (lm ++ [OVal v])); [exact Hsol'|].
+              ti_other2 T.
+           ++ injection Hstep as <-. split; [|destruct (brk v); mu_us_tac].
+              destruct (brk v).
+              ** apply (ui_check st brk true _ false false false (S n0) (S m0) (lm ++ [OVal v])); [exact Hsol'|].
+                 ti_other2 T.
+              ** apply (ui_check st brk false _ false false false (S n0) (S m0) (lm ++ [OVal v])); [exact Hsol'|].
+                 ti_other2 T.
+        -- destruct drain; cbn in Hstep; unfold rendezvous in Hstep; cbn in Hstep.
+           ++ injection Hstep as <-. split; [|mu_us_tac].
+              apply (ui_check st brk true _ false false false (S n0) (S m0) (lm ++ [OVal v])); [exact Hsol'|].
+              ti_other2 T.
+           ++ injection Hstep as <-. split; [|destruct (brk v); mu_us_tac].
+              destruct (brk v).
+              ** apply (ui_check st brk true _ false false false (S n0) (S m0) (lm ++ [OVal v])); [exact Hsol'|].
+                 ti_other2 T.
+              ** apply (ui_check st brk false _ false false false (S n0) (S m0) (lm ++ [OVal v])); [exact Hsol'|].
+                 ti_other2 T.
+        -- destruct drain; cbn in Hstep; destruct t; discriminate.
+    + (* status written, not yet sent *)
+      destruct t as [|[|t]].
+      * destruct drain; cbn in Hstep; discriminate.
+      * destruct drain; cbn in Hstep; injection Hstep as <-; (split; [|mu_us_tac]).
+        -- apply (ui_check st brk true _ true true false n0 m0 lm); [apply sol_s|apply TI_send; exact T].
+        -- apply (ui_check st brk false _ true true false n0 m0 lm); [apply sol_s|apply TI_send; exact T].
+      * destruct drain; cbn in Hstep; destruct t; discriminate.
+    + (* status sent, certificate channel not yet closed *)
+      destruct t as [|[|t]].
+      * destruct drain; cbn in Hstep; discriminate.
+      * destruct drain; cbn in Hstep; injection Hstep as <-; (split; [|mu_us_tac]).
+        -- apply (ui_check st brk true _ true true true n0 m0 lm); [apply sol_done|ti_other T].
+        -- apply (ui_check st brk false _ true true true n0 m0 lm); [apply sol_done|ti_other T].
+      * destruct drain; cbn in Hstep; destruct t; discriminate.
+    + (* the solver is done; the caller sees the close *)
+      destruct t as [|[|t]].
+      * destruct drain; cbn in Hstep; injection Hstep as <-; (split; [|mu_us_tac]).
+        -- apply ui_recv. ti_other T.
+        -- apply (ui_check st brk true _ true true true n0 m0 (lm ++ [OClosed])); [apply sol_done|ti_other T].
+      * destruct drain; cbn in Hstep; discriminate.
+      * destruct drain; cbn in Hstep; destruct t; discriminate.
+  - destruct t as [|[|t]]; cbn in Hstep; try discriminate.
+    + injection Hstep as <-. split; [|mu_us_tac]. apply ui_read. apply TI_recv. exact T.
+    + destruct t; discriminate.
+  - destruct t as [|[|t]]; cbn in Hstep; try discriminate.
+    + injection Hstep as <-. split; [|mu_us_tac].
+      rewrite <- app_assoc. simpl. apply ui_done. apply TI_read. exact T.
+    + destruct t; discriminate.
+  - destruct t as [|[|t]]; cbn in Hstep; try discriminate. destruct t; discriminate.
+Qed.
+
+Lemma us_inv_step : forall st brk s t s', us_inv st brk s -> step s t = Some s' -> us_inv st brk s'.
+Proof. intros. eapply us_inv_step_mu; eauto. Qed.
+
+Lemma us_inv_dec : forall st brk s t s', us_inv st brk s -> step s t = Some s' -> mu_us s' < mu_us s.
+Proof. intros. eapply us_inv_step_mu; eauto. Qed.
+
+Lemma us_inv_width : forall st brk s, us_inv st brk s -> length (threads s) <= 2.
+Proof. intros st brk s H. destruct H; simpl; lia. Qed.
+
+Lemma us_inv_safe : forall st brk s, us_inv st brk s -> panic s = false /\ race_free (trace s).
+Proof.
+  intros st brk s H. destruct H; simpl; (split; [reflexivity|eapply TI_race_free; eauto]).
+Qed.
+
+(* the end of UnsatSubset's concurrent part: both goroutines finished (no
+   goroutine is left blocked), the caller received the status [st] and reads
+   the same value from the cell *)
+Definition us_done (st : value) (s : sys) : Prop :=
+  all_finished s = true /\ panic s = false /\
+  closed (getc s 0) = true /\
+  (exists lm, log (getthread s 0) = lm ++ [OVal st; ORead st]).
+
+Lemma us_inv_live : forall st brk s, us_inv st brk s ->
+  (forall t, t < 2 -> step s t = None) -> us_done st s.
+Proof.
+  intros st brk s Hinv Hq.
+  pose proof (Hq 0 ltac:(lia)) as H0. pose proof (Hq 1 ltac:(lia)) as H1. clear Hq.
+  destruct Hinv as [drain sc sW sS clo n0 m0 lm tr Hsol T|n0 m0 lm tr T|n0 m0 lm tr T|n0 m0 lm tr T].
+  - exfalso. destruct Hsol as [rest| | |].
+    + destruct rest as [|v rest]; destruct drain; cbn in H1; discriminate.
+    + destruct drain; cbn in H1; discriminate.
+    + destruct drain; cbn in H1; discriminate.
+    + destruct drain; cbn in H0; discriminate.
+  - exfalso. cbn in H0. discriminate.
+  - exfalso. cbn in H0. discriminate.
+  - unfold us_done, all_finished, getthread, getc. cbn.
+    split; [reflexivity|]. split; [reflexivity|]. split; [reflexivity|]. exists lm. reflexivity.
+Qed.
+
+Lemma hb_unsat_subset : forall lines st brk sched,
+  let s0 := us_new_sys lines st brk in
+  let s := run sched s0 in
+  panic s = false /\ race_free (trace s) /\
+  (quiescent s -> us_done st s) /\
+  (exists sched', quiescent (run sched' s)) /\
+  (forall sched', rounds 2 (mu_us s) sched' -> quiescent (run sched' s)).
+Proof.
+  intros lines st brk sched s0 s.
+  assert (Hinv : us_inv st brk s).
+  { apply (inv_run (us_inv st brk) (us_inv_step st brk)). apply us_inv_init. }
+  destruct (us_inv_safe st brk s Hinv) as [Hp Hr].
+  split; [exact Hp|]. split; [exact Hr|].
+  split. { intro Hq. eapply us_inv_live; eauto. }
+  split. { eapply (can_finish (us_inv st brk) mu_us 2); eauto using us_inv_step, us_inv_dec, us_inv_width. }
+  intros sched' Hrd. eapply (fair_terminates (us_inv st brk) mu_us 2); eauto using us_inv_step, us_inv_dec, us_inv_width.
+Qed.
+
+(* ------------------------------------------------------------------ *)
+(* 7. Instances showing that the hypotheses of the theorems are        *)
+(*    satisfiable (used as Examples in Properties/C16.v, C20.v)        *)
+
+Lemma ex_decreasing_stream :
+  is_decreasing_stream (fun v => length v = 3) (fun v => nth 1 v 0%Z)
+    [[1; 5; 1]; [1; 3; 0]; [1; 2; 1]]%Z.
+Proof. split; [repeat constructor|simpl; repeat split; reflexivity]. Qed.
+
+Lemma ex_trim_hyps :
+  (forall v, 2 <= length v -> 2 <= length (trim_result 1 v)) /\
+  (forall v, nth 1 (trim_result 1 v) 0%Z = nth 1 v 0%Z).
+Proof.
+  split.
+  - intros [|a [|b v]] H; simpl in *; try lia. destruct (Z.eqb a 1); simpl; lia.
+  - intros [|a [|b v]]; simpl; try reflexivity. destruct (Z.eqb a 1); reflexivity.
+Qed.
+
+Lemma ex_disjoint_footprints :
+  disjoint_footprints (fun t x => x = t) (fun t x => x = t)
+    (start [[Send 0 [1%Z]; Write 0 [2%Z]; Recv 0; Read 0; Close 0];
+            [Send 1 [3%Z]; Recv 1; Write 1 [4%Z]; Read 1]]
+           [(0, mkchan 1); (1, mkchan 1)]).
+Proof.
+  split; [|split; intros t t' x Hne [H1 H2]; lia].
+  intros [|[|t]] i Hi; simpl in Hi.
+  - repeat (destruct Hi as [<-|Hi]; [constructor; reflexivity|]). destruct Hi.
+  - repeat (destruct Hi as [<-|Hi]; [constructor; reflexivity|]). destruct Hi.
+  - destruct t; destruct Hi.
+Qed.
+
+(* the frame theorem at work on that instance, under one interleaving *)
+Lemma ex_frame_run :
+  let s := start [[Send 0 [1%Z]; Write 0 [2%Z]; Recv 0; Read 0; Close 0];
+                  [Send 1 [3%Z]; Recv 1; Write 1 [4%Z]; Read 1]]
+                 [(0, mkchan 1); (1, mkchan 1)] in
+  log (getthread (run [0; 1; 1; 0; 1; 0; 0; 1; 0] s) 0) = [OVal [1%Z]; ORead [2%Z]] /\
+  log (getthread (run [0; 1; 1; 0; 1; 0; 0; 1; 0] (alone 0 s)) 0) = [OVal [1%Z]; ORead [2%Z]].
+Proof. vm_compute. split; reflexivity. Qed.
+
+Lemma ex_accepts :
+  accepts_trace [[1; 5]; [1; 3]]%Z 3
+    [OReceived [1; 5]%Z; OReceived [1; 3]%Z; OClosedEv; OReturned [1; 3]%Z] = true /\
+  accepts_trace [[1; 5]; [1; 3]]%Z 0
+    [OReceived [1; 3]%Z; OReceived [1; 5]%Z; OClosedEv; OReturned [1; 3]%Z] = false /\
+  accepts_trace [[1; 5]; [1; 3]]%Z 0
+    [OReceived [1; 5]%Z; OReceived [1; 3]%Z; OClosedEv; OReturned [1; 5]%Z] = false /\
+  accepts_trace [[1; 5]; [1; 3]]%Z 1 [OReceived [1; 5]%Z; OReceived [1; 3]%Z] = false.
+Proof. vm_compute. repeat split; reflexivity. Qed.
+
+(* ------------------------------------------------------------------ *)
+(* 8. Programs without shared cells (Optimal, Enumerate, the forwarder) *)
+(*    have no conflicting accesses at all                               *)
+
+Definition no_cells (i : instr) : Prop := uses (fun _ => True) (fun _ => False) i.
+Definition PC (s : sys) : Prop :=
+  forall th, In th (threads s) -> forall i, In i (code th) -> no_cells i.
+Definition nocell_ev (e : ev) : Prop := cell_access e = None.
+
+Lemma in_upd_nth : forall A n (a : A) l x, In x (upd_nth n a l) -> x = a \/ In x l.
+Proof.
+  intros A n a l. revert n. induction l as [|y l IH]; intros n x H.
+  - destruct n; destruct H.
+  - destruct n; simpl in H.
+    + destruct H as [<-|H]; [left; reflexivity|right; right; exact H].
+    + destruct H as [<-|H]; [right; left; reflexivity|].
+      destruct (IH n x H) as [->|H']; [left; reflexivity|right; right; exact H'].
+Qed.
+
+Lemma advance_no_cells : forall th, (forall i, In i (code th) -> no_cells i) ->
+  forall i, In i (code (advance th)) -> no_cells i.
+Proof.
+  intros th H i Hi. unfold advance in Hi. simpl in Hi.
+  destruct (code th) as [|x r]; [destruct Hi|]. apply H. right. exact Hi.
+Qed.
+
+Lemma deliver_no_cells : forall th o, (forall i, In i (code th) -> no_cells i) ->
+  forall i, In i (code (deliver th o)) -> no_cells i.
+Proof.
+  intros th o H i Hi. unfold deliver in Hi.
+  destruct (code th) as [|x r] eqn:Hc; [rewrite Hc in Hi; destruct Hi|].
+  destruct x as [ch v|ch|ch body brk|ch|cell v|cell];
+    try (rewrite Hc in Hi; apply H; exact Hi).
+  - simpl in Hi. apply H. right. exact Hi.
+  - destruct o as [v|]; simpl in Hi; [|apply H; right; exact Hi].
+    apply in_app_or in Hi. destruct Hi as [Hi|Hi].
+    + assert (Hr : no_cells (Range ch body brk)) by (apply H; left; reflexivity).
+      inversion Hr as [| |ch0 body0 brk0 _ Hb| | |]; subst. eapply Hb. exact Hi.
+    + destruct (brk v); [apply H; right; exact Hi|apply H; exact Hi].
+Qed.
+
+Lemma nth_error_getthread_in : forall s t th, nth_error (threads s) t = Some th -> In th (threads s).
+Proof. intros s t th H. eapply nth_error_In; eauto. Qed.
+
+Lemma getthread_in_or_empty : forall s t, In (getthread s t) (threads s) \/ getthread s t = Thread [] [].
+Proof.
+  intros s t. unfold getthread. destruct (nth_in_or_default t (threads s) (Thread [] [])) as [H|H]; auto.
+Qed.
+
+Lemma PC_getthread : forall s t, PC s -> forall i, In i (code (getthread s t)) -> no_cells i.
+Proof.
+  intros s t H i Hi. destruct (getthread_in_or_empty s t) as [Hin|He].
+  - eapply H; eauto.
+  - rewrite He in Hi. destruct Hi.
+Qed.
+
+Lemma Forall_snoc : forall A (P : A -> Prop) l e, Forall P l -> P e -> Forall P (l ++ [e]).
+Proof. intros. apply Forall_app. split; [assumption|constructor; [assumption|constructor]]. Qed.
+
+Lemma Forall_snoc2 : forall A (P : A -> Prop) l e1 e2, Forall P l -> P e1 -> P e2 -> Forall P (l ++ [e1; e2]).
+Proof. intros. apply Forall_app. split; [assumption|repeat constructor; assumption]. Qed.
+
+Lemma rendezvous_pure : forall s ts tr ch v, PC s -> Forall nocell_ev (trace s) ->
+  PC (rendezvous s ts tr ch v) /\ Forall nocell_ev (trace (rendezvous s ts tr ch v)).
+Proof.
+  intros s ts tr ch v Hpc Htr. unfold rendezvous. simpl. split.
+  - intros th Hin i Hi. apply in_upd_nth in Hin. destruct Hin as [->|Hin].
+    + eapply deliver_no_cells; [|exact Hi]. apply PC_getthread. exact Hpc.
+    + apply in_upd_nth in Hin. destruct Hin as [->|Hin].
+      * eapply advance_no_cells; [|exact Hi]. apply PC_getthread. exact Hpc.
+      * eapply Hpc; eauto.
+  - apply Forall_snoc2; [exact Htr|reflexivity|reflexivity].
+Qed.
+
+Lemma recv_step_pure : forall s t th ch s', PC s -> Forall nocell_ev (trace s) ->
+  nth_error (threads s) t = Some th ->
+  recv_step s t th ch = Some s' -> PC s' /\ Forall nocell_ev (trace s').
+Proof.
+  intros s t th ch s' Hpc Htr Hth H. unfold recv_step in H.
+  assert (Hthc : forall i, In i (code th) -> no_cells i).
+  { intros i Hi. eapply Hpc; [eapply nth_error_getthread_in; eauto|exact Hi]. }
+  destruct (queue (getc s ch)) as [|v q].
+  - destruct (closed (getc s ch)).
+    + injection H as <-. simpl. split.
+      * intros th' Hin i Hi. apply in_upd_nth in Hin. destruct Hin as [->|Hin].
+        -- eapply deliver_no_cells; eauto.
+        -- eapply Hpc; eauto.
+      * apply Forall_snoc; [exact Htr|reflexivity].
+    + destruct (cap (getc s ch) =? 0); [|discriminate].
+      destruct (find_from (wants_send ch) t 0 (threads s)) as [[ts v]|]; [|discriminate].
+      injection H as <-. apply rendezvous_pure; assumption.
+  - injection H as <-. simpl. split.
+    + intros th' Hin i Hi. apply in_upd_nth in Hin. destruct Hin as [->|Hin].
+      * eapply deliver_no_cells; eauto.
+      * eapply Hpc; eauto.
+    + apply Forall_snoc; [exact Htr|reflexivity].
+Qed.
+
+Lemma step_pure : forall s t s', PC s -> Forall nocell_ev (trace s) ->
+  step s t = Some s' -> PC s' /\ Forall nocell_ev (trace s').
+Proof.
+  intros s t s' Hpc Htr H. unfold step in H.
+  destruct (panic s); [discriminate|].
+  destruct (nth_error (threads s) t) as [th|] eqn:Hth; [|discriminate].
+  assert (Hthc : forall i, In i (code th) -> no_cells i).
+  { intros i Hi. eapply Hpc; [eapply nth_error_getthread_in; eauto|exact Hi]. }
+  assert (Hadv : forall th' i, In th' (upd_nth t (advance th) (threads s)) -> In i (code th') -> no_cells i).
+  { intros th' i Hin Hi. apply in_upd_nth in Hin. destruct Hin as [->|Hin].
+    - eapply advance_no_cells; eauto.
+    - eapply Hpc; eauto. }
+  destruct (code th) as [|x r] eqn:Hc; [discriminate|].
+  destruct x as [ch v|ch|ch body brk|ch|cell v|cell].
+  - destruct (closed (getc s ch)).
+    + injection H as <-. unfold do_panic. simpl. split; [exact Hpc|].
+      apply Forall_snoc; [exact Htr|reflexivity].
+    + destruct (cap (getc s ch) =? 0).
+      * destruct (find_from (wants_recv ch) t 0 (threads s)) as [[r0 u]|]; [|discriminate].
+        injection H as <-. apply rendezvous_pure; assumption.
+      * destruct (length (queue (getc s ch)) <? cap (getc s ch)); [|discriminate].
+        injection H as <-. simpl. split.
+        -- intros th' Hin i Hi. eapply Hadv; eauto.
+        -- apply Forall_snoc; [exact Htr|reflexivity].
+  - eapply recv_step_pure; eauto.
+  - eapply recv_step_pure; eauto.
+  - destruct (closed (getc s ch)).
+    + injection H as <-. unfold do_panic. simpl. split; [exact Hpc|].
+      apply Forall_snoc; [exact Htr|reflexivity].
+    + injection H as <-. simpl. split.
+      * intros th' Hin i Hi. eapply Hadv; eauto.
+      * apply Forall_snoc; [exact Htr|reflexivity].
+  - exfalso. assert (Hw : no_cells (Write cell v)) by (apply Hthc; left; reflexivity).
+    inversion Hw; subst. assumption.
+  - exfalso. assert (Hw : no_cells (Read cell)) by (apply Hthc; left; reflexivity).
+    inversion Hw; subst. assumption.
+Qed.
+
+Lemma run_pure : forall sched s, PC s -> Forall nocell_ev (trace s) ->
+  PC (run sched s) /\ Forall nocell_ev (trace (run sched s)).
+Proof.
+  induction sched as [|t r IH]; intros s Hpc Htr; simpl; [split; assumption|].
+  destruct (step s t) as [s'|] eqn:E; [|apply IH; assumption].
+  destruct (step_pure s t s' Hpc Htr E) as [H1 H2]. apply IH; assumption.
+Qed.
+
+Lemma race_free_no_cells : forall tr, Forall nocell_ev tr -> race_free tr.
+Proof.
+  intros tr H i j a b Hij Ha Hb Hc. exfalso.
+  rewrite Forall_forall in H. pose proof (H a (nth_error_In _ _ Ha)) as Hna.
+  unfold nocell_ev in Hna. unfold conflict in Hc. rewrite Hna in Hc. discriminate.
+Qed.
+
+Ltac pc_tac :=
+  let th := fresh "th" in let Hin := fresh "Hin" in let i := fresh "i" in let Hi := fresh "Hi" in
+  intros th Hin i Hi; simpl in Hin;
+  repeat (destruct Hin as [<-|Hin]; [simpl in Hi|]); try contradiction.
+
+Lemma producer_no_cells : forall ch results i, In i (producer ch results) -> no_cells i.
+Proof.
+  intros ch results i Hi. unfold producer in Hi. apply in_app_or in Hi.
+  destruct Hi as [Hi|[<-|[]]].
+  - apply in_map_iff in Hi. destruct Hi as [v [<- _]]. constructor. exact I.
+  - constructor. exact I.
+Qed.
+
+Lemma collect_no_cells : forall ch, no_cells (collect ch).
+Proof. intros ch. constructor; [exact I|]. intros v i []. Qed.
+
+Lemma hb_streams : forall c trim results batches sched,
+  race_free (trace (run sched (optimal_sys c results))) /\
+  race_free (trace (run sched (enumerate_sys c batches))) /\
+  race_free (trace (run sched (forwarder_sys c trim results))).
+Proof.
+  intros c trim results batches sched.
+  assert (H1 : PC (optimal_sys c results)).
+  { pc_tac.
+    - eapply producer_no_cells; exact Hi.
+    - destruct Hi as [<-|[]]. apply collect_no_cells. }
+  assert (H3 : PC (forwarder_sys c trim results)).
+  { pc_tac.
+    - eapply producer_no_cells; exact Hi.
+    - destruct Hi as [<-|[<-|[]]].
+      + constructor; [exact I|]. intros v i0 [<-|[]]. constructor. exact I.
+      + constructor. exact I.
+    - destruct Hi as [<-|[]]. apply collect_no_cells. }
+  split; [|split].
+  - apply race_free_no_cells. apply run_pure; [exact H1|constructor].
+  - rewrite enumerate_sys_optimal. apply race_free_no_cells. apply run_pure; [|constructor].
+    pc_tac.
+    + eapply producer_no_cells; exact Hi.
+    + destruct Hi as [<-|[]]. apply collect_no_cells.
+  - apply race_free_no_cells. apply run_pure; [exact H3|constructor].
+Qed.
